@@ -236,9 +236,9 @@ static double nv_vec_at(const struct nv_val* v, int64_t i)
 /* the property's optimality statement: max(eta, ||rdual||, ||rprim||) < epsilon, every comparison a real one (a NaN
  * residual is not below the threshold) */
 #define NV_OPTIMAL(st, eps) ((st).m_eta < (eps) && NV_NORM2((st).m_rdual.ver) < (eps) && NV_NORM2((st).m_rprim.ver) < (eps))
-/* what std::max({eta, |rdual|, |rprim|}) < epsilon guarantees for every double: eta is below the threshold and no
- * residual norm is at or above it (a NaN norm in 2nd / 3rd position is skipped by std::max, see NV_CONTRACT_solver_done_nan).
- * For norms that are not NaN this is literally NV_OPTIMAL. */
+/* what the pre-repair test std::max({eta, |rdual|, |rprim|}) < epsilon guaranteed for every double: eta below the threshold
+ * and no residual norm at or above it (a NaN norm in 2nd / 3rd position is skipped by std::max: the defect recorded in
+ * known_findings.txt; done() now compares each quantity itself and the contracts use NV_OPTIMAL). */
 #define NV_NOT_ABOVE(st, eps) ((st).m_eta < (eps) && !(NV_NORM2((st).m_rdual.ver) >= (eps)) && !(NV_NORM2((st).m_rprim.ver) >= (eps)))
 #define NV_EPS_OK(eps) (0.0 <= (eps) && (eps) <= 1e-3)      /* registered domain of solver::epsilon (solver.cpp:211, :248) */
 
@@ -269,7 +269,7 @@ __CPROVER_ensures(__CPROVER_return_value == NV_FEASIBLE(self, state->m_x.ver))
 #define NV_DONE_COMMON \
 __CPROVER_requires(NV_FRESH(program) && NV_FRESH(state) && NV_FRESH(logger) && NV_EPS_OK(epsilon)) \
 __CPROVER_assigns(state->m_status) \
-__CPROVER_ensures(state->m_status == NV_DONE_STATUS(NV_FEASIBLE(program, state->m_x.ver), NV_NOT_ABOVE(*state, epsilon))) \
+__CPROVER_ensures(state->m_status == NV_DONE_STATUS(NV_FEASIBLE(program, state->m_x.ver), NV_OPTIMAL(*state, epsilon))) \
 __CPROVER_ensures(NV_PSTATE_KEPT(state))
 #define NV_CONTRACT_solver_done NV_DONE_COMMON
 /* the property's clause without any side condition: converged => every one of eta, |rdual|, |rprim| is below epsilon */
@@ -339,7 +339,7 @@ __CPROVER_ensures(NV_START_INFEASIBLE \
   : (((NV_R.m_status == NVE_solver_status_max_iters) == (NV_R.m_iters == nv_p_max_iters)) \
      && (NV_R.m_status == NVE_solver_status_failed ==> (!NV_FINITE(NV_R.m_eta) || !NV_FINITE(NV_NORM2(NV_R.m_rdual.ver)) || !NV_FINITE(NV_NORM2(NV_R.m_rprim.ver)))) \
      && ((NV_R.m_status == NVE_solver_status_converged || NV_R.m_status == NVE_solver_status_unbounded || NV_R.m_status == NVE_solver_status_unfeasible) \
-         ==> NV_R.m_status == NV_DONE_STATUS(NV_FEAS_ABS(program, NV_R.m_x.ver), NV_NOT_ABOVE(NV_R, nv_p_epsilon)))))
+         ==> NV_R.m_status == NV_DONE_STATUS(NV_FEAS_ABS(program, NV_R.m_x.ver), NV_OPTIMAL(NV_R, nv_p_epsilon)))))
 #define NV_SWI_LOOP3_FRAME \
 __CPROVER_loop_invariant(state.m_x.ver == __CPROVER_loop_entry(state.m_x.ver) && state.m_u.ver == __CPROVER_loop_entry(state.m_u.ver) && state.m_v.ver == __CPROVER_loop_entry(state.m_v.ver) \
   && state.m_status == __CPROVER_loop_entry(state.m_status) && state.m_iters == __CPROVER_loop_entry(state.m_iters))
